@@ -82,6 +82,11 @@ def make_case(seed, i, force_end=None):
         files0["/w/lib_later/a_first.yml"] = "LaterBase: !record\n  fields:\n    id: int\n"
         files0["/w/lib_later/b_more.yml"] = "LaterTag: !enum\n  values:\n    - one\n    - two\n"
         files0["/w/lib_later/c_more.yml"] = "LaterPair: !record\n  fields:\n    left: LaterBase\n    right: LaterTag\n"
+    invalid_from_start = None
+    if force_end == "invalid_from_start":
+        # the session starts on a package that is invalid already (and stays so): nothing at all may be written
+        invalid_from_start = "/w/pkg/zz_unfinished.yml"
+        files0[invalid_from_start] = "ZqUnfinished: !record\n  fields:\n    first: int\n   second: [\n"
     cur = dict(files0)
     edits, log = [], []
     n_edits = rng.randint(1, 6)
@@ -340,7 +345,7 @@ def make_case(seed, i, force_end=None):
         # files of earlier states that the new state no longer has stay on disk unless they are model files of a live package dir
         # (only model files and manifests are the state's to manage: what else lies in the directories is left alone - removing
         #  it would produce events of its own in watched directories, after the edit under test)
-        eds = diff_to_edits(r, {p: c for p, c in cur.items() if (p in nxt or p.rsplit("/", 1)[0] in {q.rsplit("/", 1)[0] for q in nxt}) and p.endswith((".yml", ".yaml"))}, nxt, in_place)
+        eds = diff_to_edits(r, {p: c for p, c in cur.items() if (p in nxt or p.rsplit("/", 1)[0] in {q.rsplit("/", 1)[0] for q in nxt}) and p.endswith((".yml", ".yaml")) and p != invalid_from_start}, nxt, in_place)
         r.shuffle(eds)
         edits += eds
         for ed in eds:
@@ -349,8 +354,11 @@ def make_case(seed, i, force_end=None):
             else:
                 cur[ed["path"]] = ed["data"]
     end_invalid = rng.chance(0.16) or force_end is not None
-    unfinished = None
-    if end_invalid and (force_end == "unfinished_file" or (force_end is None and rng.fork("endkind").chance(0.5))):
+    if invalid_from_start:
+        unfinished = invalid_from_start
+        end_invalid = True
+    unfinished = invalid_from_start
+    if end_invalid and unfinished is None and (force_end == "unfinished_file" or (force_end is None and rng.fork("endkind").chance(0.5))):
         # a new model file that is not finished yet (a YAML syntax error) appears in a directory the package reads - its own,
         # an import's, a previous version's - and stays, while the user goes on saving other files: from that save on the
         # package is invalid whatever else is on disk, and no regeneration that starts later may touch the output
@@ -427,7 +435,7 @@ def make_case(seed, i, force_end=None):
     doc = {"files": files0, "cwd": "/w/pkg", "edits": edits, "sched": sched, "faults": faults, "config_args": config_args,
            "mapseed": rng.next() % (1 << 31) + 1, "seed": seed,
            "case": {"i": i, "targets": targets, "imports": len(pkg.imports), "versions": len(pkg.versions), "edit_log": log,
-                    "n_edit_ops": len(edits), "ends_invalid": end_invalid, "unfinished_file": unfinished, "model_file_in_subdirectory": subdir_file}}
+                    "n_edit_ops": len(edits), "ends_invalid": end_invalid, "unfinished_file": unfinished, "invalid_from_start": bool(invalid_from_start), "model_file_in_subdirectory": subdir_file}}
     return doc
 
 
@@ -484,7 +492,7 @@ def execute(sim, doc):
     # O3: from the save of a file that makes the package invalid for good, no regeneration that starts later touches the disk
     unf = doc["case"].get("unfinished_file")
     if unf:
-        since = next((o["seq"] for o in res["ops"] if o["op"] == "edit" and o["path"].endswith(" " + unf)), None)
+        since = 0 if doc["case"].get("invalid_from_start") else next((o["seq"] for o in res["ops"] if o["op"] == "edit" and o["path"].endswith(" " + unf)), None)
         if since is not None:
             st["regenerations_started_while_invalid_for_good"] = 0
             born = {o["g"]: o["seq"] for o in res["ops"] if o["op"] == "born"}
